@@ -289,9 +289,13 @@ def roundHalfEven (q : Rat) : Int :=
   let f := (q + 1 / 2).floor
   if (f : Rat) == q + 1 / 2 && f % 2 != 0 then f - 1 else f
 
-/-- coefficient part of `PauliTerm.__hash__` -/
+/-- CPython's `hash(n)` of an int of magnitude below 2^61 - 1: the identity, except `hash(-1) = -2` (T19: the hashes of the tuples
+    `(-1, …)` and `(-2, …)` therefore collide, and two terms whose coefficients round to -1 and -2 land in the same bucket) -/
+def pyIntHash (n : Int) : Int := if n = -1 then -2 else n
+
+/-- coefficient part of `PauliTerm.__hash__` as far as the HASH VALUE depends on it -/
 def hk (x : Cyc8) : Int × Int :=
-  (roundHalfEven (x.a * (Gen.hashPrecision : Rat)), roundHalfEven (x.c * (Gen.hashPrecision : Rat)))
+  (pyIntHash (roundHalfEven (x.a * (Gen.hashPrecision : Rat))), pyIntHash (roundHalfEven (x.c * (Gen.hashPrecision : Rat))))
 
 /-- `1.0 / x` -/
 def recip (x : Cyc8) : Option Cyc8 := if x = 0 then none else some (Cyc8.inv x)
